@@ -4,19 +4,19 @@ import json
 PROPS=[json.loads(l)['id'] for l in open('/verif/properties.jsonl')]
 # id -> (technique, level text, level note, design section)
 C = {
- 'C01': ("property-based testing: proptest over choice bytes decoded into circuit programs (small, large up to 130 gates, wide up to hundreds of constraints/commitments, custom Pedersen bases, party capacities), constraints spelled before their variables exist, every linear combination spelled through a rotating part of the operator set, chained second proofs, plus fixed extreme statements (65 540 commitments, 70 000 constraints; thorough: 127..1024 gates); oracle = independent circuit model (model says satisfied => prove Ok and verify Ok)",
+ 'C01': ("property-based testing: proptest over choice bytes decoded into circuit programs (small, large up to 130 gates, wide up to hundreds of constraints/commitments, custom Pedersen bases, party capacities), constraints spelled before their variables exist, every linear combination spelled through a rotating part of the operator set (incl. terms over Variable::Phantom), chained second proofs, plus fixed extreme statements (65 540 commitments, 70 000 constraints; thorough: 127..1024 gates); oracle = independent circuit model (model says satisfied => prove Ok and verify Ok)",
          "Generated-input search with shrinking over circuit programs (call sequences, both phases, scalar classes over the full field, three curves, independent capacities). Every accepted case was judged satisfied by an independent interpreter, so a reject is a completeness failure. Exploration, not proof: it samples thousands of shapes the suite never builds (single allocation path, zero gates, mixed phases, threshold capacities).",
          "Trusted: the circuit model (harness/src/model.rs), arkworks curve arithmetic, the vendored instrumented merlin (bit-compatible, KAT-checked).", "3/C01"),
- 'C02': ("property-based testing: generated programs with injected violations (linear, constant-only, committed-only, gate via guarded hook, cancelling pairs, violated forward-reference constraints without a constant term, near-miss witnesses that satisfy a constraint with one term sign-flipped / dropped / doubled), also through batch_verify (alone and beside the opposite violation) + exhaustive position sweeps of cancelling pairs (adjacent and block-distance pairs over 1100 constraint positions and 64/256 gate positions); oracle = model lists a violated row/gate => verify Err",
+ 'C02': ("property-based testing: generated programs with injected violations (linear, constant-only, committed-only, gate via guarded hook, cancelling pairs, violated forward-reference constraints without a constant term, near-miss witnesses that satisfy a constraint with one term sign-flipped / dropped / doubled, X − Y = 0 for confusable variables, single violations far out incl. one term of a 66 000-term constraint), also through batch_verify (alone and beside the opposite violation) + exhaustive position sweeps of cancelling pairs (adjacent and block-distance pairs over 1100 constraint positions and 64/256 gate positions); oracle = model lists a violated row/gate => verify Err",
          "Generated bad witnesses pushed through the unmodified prover; the model decides which rows/gates the final assignment violates; any acceptance is a soundness failure. Covers enumerated violation classes incl. cancelling pairs that survive a degenerate z^q / y^n weighting.",
          "Trusted: circuit model; false-accept probability 2^-240 ignored; hook verif_overwrite_gate only overwrites the prover's assignment.", "3/C02"),
  'C08': ("bounded exhaustive grid over (|L|,|R|, gates, fill, scalars, mode) + proptest over structurally arbitrary proof objects, raw and mutated byte strings, every public decode path (compressed / uncompressed, checked / unchecked, containers: empty, Option, nested, up to 1001 members with a 9000-round member under the heap bound) (+ libFuzzer c08_decode_verify with ASan in the thorough tier); oracle = no panic (catch_unwind), Ok/Err only, decode heap <= 64*len+64KiB",
          "Robustness exploration: exhaustive length grid and generated hostile inputs against decode / verify / batch_verify with a panic and heap oracle.",
          "Trusted: catch_unwind sees every panic in the panic=unwind harness build (debug assertions and overflow checks on); counting global allocator.", "3/C08"),
- 'C11': ("property-based testing: round-trip / size-law / verdict-equality over proofs of generated programs; exhaustive strict-prefix enumeration; crafted single-field invalid encodings at every scalar and point slot, cancelling small-order pairs, uncompressed mode round trip, k = 12/13 (+ libFuzzer c11_roundtrip in the thorough tier)",
+ 'C11': ("property-based testing: round-trip / size-law / verdict-equality over proofs of generated programs; exhaustive strict-prefix enumeration; crafted single-field invalid encodings at every scalar and point slot, cancelling small-order pairs, uncompressed mode round trip and off-curve points in that mode, k = 12/13 (+ libFuzzer c11_roundtrip in the thorough tier)",
          "Round-trip and rejection checks over generated proofs (k=0..8), exhaustive prefixes for a subset, and crafted invalid encodings (non-canonical scalars, off-curve, invalid flags, small-order offsets) at every position.",
          "Trusted: the mirror layout (11 points, 3 scalars, two length-prefixed lists, 2 scalars); candidates are confirmed invalid independently before asking the proof decoder.", "3/C11"),
- 'C12': ("model-based property testing: histories of new/increase_capacity/serialization round-trips compared with a history-free reference derivation; distinctness, subgroup, pinned digests, cross-process digest, 300 / 65 600 parties, views consumed through nth / skip / step_by / count / last",
+ 'C12': ("model-based property testing: histories of new/increase_capacity/serialization round-trips compared with a history-free reference derivation; distinctness, subgroup, pinned digests, cross-process digest, 300 / 65 600 parties, views consumed through nth / skip / step_by / count / last, clone_from, one step beyond 2^17 generators",
          "Stateful generated histories against a reference table; all (n,m) views incl. n=0/m=0; pinned digests from the reference revision.",
          "Trusted: the curve's point sampler (shared with the code under test); SHA3/ChaCha crates.", "3/C12"),
  'C13': ("property-based testing: (v,r) over the full field (boundary classes, limb patterns, random) and arbitrary bases (incl. equal, swapped, identity, small-order-component and dependent bases B̃ = k·B with openings v = ±k·r) against an independent double-and-add reference and the homomorphism laws; Prover::commit in runs interleaved with gates and constraints",
@@ -24,7 +24,7 @@ C = {
  'C15': ("property-based testing: generated expression trees over every operator impl (incl. term lists of hundreds of terms, running sums of up to 9 100 steps, variables with indices beyond 2^16, constraints spelled before the variables exist with hand-built handles); oracle = own tree evaluation; accept at the reference value, reject at value+delta",
          "Every operator impl is exercised by generated trees whose meaning is decided by an independent evaluator through the prove/verify verdict.",
          "Trusted: own evaluator; C01/C02 behaviour of the proof system on one-constraint circuits.", "3/C15"),
- 'C16': ("model-based property testing: generated call sequences (up to hundreds of calls, and sequences crossing gate index 2^16); call-by-call handle equality prover = verifier = allocation state machine; missing-assignment error that leaves no trace (gate count unchanged, recovery continues as the plain sequence)",
+ 'C16': ("model-based property testing: generated call sequences (up to hundreds of calls, and sequences crossing gate index 2^16 / 2^17 / 2^18); call-by-call handle equality prover = verifier = allocation state machine; missing-assignment error that leaves no trace (gate count unchanged, recovery continues as the plain sequence)",
          "Stateful comparison of returned Variables and gate counts after every call, both phases.", "Trusted: allocation model written from the trait docs.", "3/C16"),
  'C17': ("exhaustive enumeration of (n1, n2, prover capacity, verifier capacity, mode, party capacity) grid plus large thresholds, honest and malformed proofs; oracle = threshold predicate and capacity-independence of proof bytes and verdict",
          "The whole finite grid the property names is enumerated on all three curves.", "Trusted: threshold formula from the property text.", "3/C17"),
@@ -37,13 +37,13 @@ C.update({
  'C04': ("exhaustive single-bit flips of accepted proofs + proptest-generated single-field edits / swaps / one-sided list growth / round edits / byte edits / compensating pair edits built from the honest run's coefficients, opposite copies in a batch, verifier holding a generator object that overstates its capacity (+ libFuzzer c04_malleate in the thorough tier); oracle = decode error or verification error or identical object",
          "Mutation of accepted proofs: all bit flips of several proofs per curve, and generated structured edits through the mirror.",
          "Trusted: mirror layout; 'identical object' = re-encodes to the original bytes. Forgery resistance beyond the enumerated edits is a cryptographic assumption.", "3/C04"),
- 'C05': ("metamorphic property-based testing: accepted (program, proof) × one verifier-side statement/context deviation (commitments replaced by V+B, V+B̃, random, another V, −V, mirror point, 2V, V+T; extra / missing / reordered commitments; coefficients and constants; labels and application data incl. ~80-byte labels sharing a 64-byte prefix; bases), checked through verify and through batch_verify (alone, beside the honest instance, with the opposite deviation); oracle = circuit model says unsatisfied or the deviation changes bound context => verify Err; cross-verification of same-structure statements",
+ 'C05': ("metamorphic property-based testing: accepted (program, proof) × one verifier-side statement/context deviation (commitments replaced by V+B, V+B̃, random, another V, −V, mirror point, 2V, V+T, off-curve object with the same compressed encoding; changed multiply operands; extra / missing / reordered commitments; coefficients and constants; labels and application data incl. ~80-byte labels sharing a 64-byte prefix; bases), checked through verify and through batch_verify (alone, beside the honest instance, with the opposite deviation); oracle = circuit model says unsatisfied or the deviation changes bound context => verify Err; cross-verification of same-structure statements",
          "Every deviation class the property names is generated; deviations the committed values still satisfy carry no expectation.",
          "Trusted: circuit model for 'unsatisfied'.", "3/C05"),
  'C06': ("trace-invariant property testing over the instrumented Merlin log: protocol schedule as ordered required subsequence with full payload encodings, no early/extra challenge, application challenge labels passed on exactly, prover ops == verifier ops, returned transcripts agree, fork for the combination weight after the last message, verifier runs on altered proofs absorb the altered elements",
          "Observation of every transcript operation of both roles on generated programs (one/two phase, user data, bad witnesses) against the schedule as data.",
          "Trusted: vendored merlin instrumentation (additive, KAT-checked against the registry crate); schedule.rs as the protocol order.", "3/C06"),
- 'C07': ("differential property-based testing: generated batches (mixed sizes/phases/order, invalid members at all positions, cancelling ±d sets, capacity-insufficient members, long batches, clean-room-prover members incl. partially filled / balanced second-phase slots) + distance sweep of a cancelling pair inside batches of up to 520 members, weight-ratio sweep, batches of 1 025 .. 20 011 members with one invalid member; oracle = batch verdict == AND of individual verdicts",
+ 'C07': ("differential property-based testing: generated batches (mixed sizes/phases/order, invalid members at all positions, cancelling ±d sets, capacity-insufficient members, long batches, clean-room-prover members incl. partially filled / balanced second-phase slots) + distance sweep of a cancelling pair inside batches of up to 520 members, weight-ratio sweep, binomial error patterns at equally spaced positions, pairs a multiple of 2^10 apart in batches up to 8192, batches of 1 025 .. 20 011 members with one invalid member; oracle = batch verdict == AND of individual verdicts",
          "Batch vs. conjunction over generated batches including adversarially correlated invalid members.",
          "Trusted: individual verification (C01–C03).", "3/C07"),
  'C09': ("metamorphic + algebraic property testing with a scripted transcript RNG: RNG construction events, seed laws, draw decoding, per-draw +1 sensitivity probes (bijection draw <-> blinding role; every draw of a fixed 70+66-gate circuit, sampled draws of other large circuits), openings against the model witness, recomputed blinding scalars, lower bound on consumed RNG output, blinding-factor sensitivity of the RNG under bases with known discrete-log relation, circuits at scale (4096+ gates, 1025+ commitments)",
